@@ -340,6 +340,32 @@ theorem series_samples_sorted_in_range (rows : List Row) (hs : SortedRows rows) 
     obtain ⟨r, hr', rfl⟩ := List.mem_map.mp hx
     exact hr r (List.mem_filter.mp hr').1
 
+
+/-- **reshuffle_once.** `ReshuffleSeries` (after `fix: a label set stored under two fingerprints …`), `key fp` =
+    the label set of fingerprint `fp`: for every series list, the result carries pairwise distinct label sets
+    (each label set is handed to the engine once); for every label set the samples handed out under it are
+    exactly the samples the input held under it (a permutation: nothing lost, nothing handed twice); and if
+    every input series is ascending so is every output series (merged ones are re-sorted), so the cursor
+    theorems apply to them. -/
+theorem reshuffle_once {K : Type} [DecidableEq K] (key : Nat → K) (ss : List Series) :
+    ((reshuffle key ss).map (fun s => key s.fp)).Nodup ∧
+    (∀ k, (samplesOfKey key k (reshuffle key ss)).Perm (samplesOfKey key k ss)) ∧
+    ((∀ s ∈ ss, Sorted s.samples ∧ TsSorted s.samples) → ∀ s ∈ reshuffle key ss, Sorted s.samples) := by
+  obtain ⟨h1, h2, h3⟩ := foldl_mergeInto_spec key ss [] (by simp)
+  refine ⟨h1, ?_, ?_⟩
+  · intro k
+    have := h2 k
+    simpa [samplesOfKey, reshuffle] using this
+  · intro hs s hmem
+    exact sorted_of_pairwise (h3 (by intro s h; cases h) (fun s h => (hs s h).2) s hmem)
+
+/-- **reshuffle_distinct_id.** When the label sets are already distinct — fingerprints identify label sets, the
+    normal case — `ReshuffleSeries` returns the series unchanged. -/
+theorem reshuffle_distinct_id {K : Type} [DecidableEq K] (key : Nat → K) (ss : List Series)
+    (hnd : (ss.map (fun s => key s.fp)).Nodup) : reshuffle key ss = ss := by
+  have := foldl_mergeInto_id key ss [] (by simpa using hnd)
+  simpa [reshuffle] using this
+
 /-- the grouping depends on the order: with rows *not* ordered by fingerprint the same loop makes two series
     for fingerprint 1 (kernel-checked) — `Grouped` is a real hypothesis, supplied by `ORDER BY fingerprint` -/
 theorem assembly_needs_fingerprint_order :
